@@ -36,6 +36,14 @@ CHECKS = {
          "Model level: for every geometry of the model space (full square of sizes up to S, boundary sizes up to 65537 against every small size, CROP1, 7 filters, adaptive on/off) the i16/i32 tables the real normalisers produce are read through the hook and Σk is checked exactly against 2^p, which decides the property for every one of the 256/65536 values. Direct: every 1-D geometry up to N x crops x 14 algorithms x 13 types x back-ends x 2 orientations on images whose line r carries value r (all 256 8-bit values), plus 2-D shapes with SuperSampling; alpha off and alpha at its maximum.",
          "Geometry bounded (S=40/160, N=12/32, extreme ratios from a list); float types only on the listed values; windows with zero total weight have no defined value and are excluded.",
          "DESIGN.md §4 C10"),
+ "C11": ("bounded-exhaustive enumeration of sizes x the full crop alphabet^2 x pixel types x source containers in fenced memory with per-case process isolation; exact index oracle on tag images",
+         "Every source size up to SxS with one destination axis varying up to D, against the full CROP1 x CROP1 alphabet (incl. sub-pixel boxes flush against the right/bottom edge down to n*2^-52 wide), the full size product up to F^4 with all 13 pixel types, and huge ratios; each through the dynamic entry (ImageRef, CroppedImage) and the typed entry (TypedImageRef's specialised row stepping, TypedCroppedImage's generic one), buffers ending at guard pages, cases isolated in child processes so a SIGSEGV is attributed to its case. Every destination pixel must be a byte copy of the source pixel at the documented index.",
+         "S=8/16, D=12/20, F=4/5; within (n_out+4)*2^-51*extent of an integer either neighbour is accepted.",
+         "DESIGN.md §4 C11"),
+ "C13": ("bounded-exhaustive differential enumeration over the container matrix (11 source kinds x 11 destination kinds, pairwise) x operations x pixel types x back-ends x placements x both entry points in fenced memory, isolated child processes",
+         "14 operations x size pairs x 8 placements x 13 pixel types x back-ends are executed through every source and destination container kind and both entry points with buffers that end at a guard page; the destination rectangle must be byte-identical to the ImageRef -> slice baseline (floats included).",
+         "Container kinds varied pairwise, typed kinds for 6 of 13 pixel types (compile-time bound); sizes from a fixed list.",
+         "DESIGN.md §4 C13"),
  "C14": ("bounded-exhaustive enumeration of view kinds x view sizes x every (start,size,parts) triple x direction with split-of-split, rectangle-model oracle with tag images and paint-and-inspect for mutable parts",
          "For every view kind (owned, referenced, cropped, nested, mutable, and a harness view using only the trait defaults), every view size up to BxB inside parents with margins, every (start,size,parts) incl. invalid ones and values near u32::MAX, and both directions, the real split functions are called; immutable parts are read back pixel by pixel against tags, mutable parts paint their index and the whole root image is compared with the expected index map, and every part is split again (depth 2). Both build profiles.",
          "B = 8 quick / 20 thorough; depth-2 splits for views up to 5x5 / 8x8; which parts get the remainder is not checked.",
